@@ -381,6 +381,37 @@ func runC07(r *Run) {
 		r.check(okAll && has400 && len(phi.Edges) >= 6, "serverErrorHandler:mapping", r.pos(eh[0].Instr), "every branch yields a framework *Error; default is 400: "+strings.Join(codes, ","), "a fasthttp error class is passed on unmapped, or the default is not 400: "+strings.Join(codes, ","))
 	})
 
+	r.rule("R7", "serverErrorHandler classifies by error identity before it looks at the message: every path to the textual `timeout` test has first evaluated every errors.As / errors.Is test (E1)", func() {
+		f := r.Fn("", "(*App).serverErrorHandler")
+		var textual []callSite
+		for _, c := range callsMatching(f, false, nameIs("strings.Contains", "strings.HasPrefix", "strings.HasSuffix", "strings.EqualFold")) {
+			if dependsOn(c.Common.Args[0], func(v ssa.Value) bool {
+				cc, ok := v.(*ssa.Call)
+				return ok && cc.Call.IsInvoke() && cc.Call.Method.Name() == "Error"
+			}) != nil {
+				textual = append(textual, c)
+			}
+		}
+		if len(textual) == 0 {
+			r.ok("serverErrorHandler:typed-before-textual", r.fpos(f), "no test on the error text")
+			return
+		}
+		typed := callsMatching(f, false, nameIs("errors.As", "errors.Is"))
+		r.atLeast("typed error tests", len(typed), 4)
+		for i, t := range typed {
+			t := t
+			okT := true
+			for _, tx := range textual {
+				// every path to the message test has evaluated this typed test
+				if _, hit := reach(entryOf(f), func(in ssa.Instruction) bool { return in == tx.Instr }, nil, func(in ssa.Instruction) bool { return in == t.Instr }); hit != nil {
+					okT = false
+				}
+			}
+			r.check(okT, fmt.Sprintf("serverErrorHandler:typed-before-textual#%d", i+1), r.pos(t.Instr), "every path to the message test has evaluated this typed test first",
+				"the message of the error is searched for `timeout` before this typed test has been evaluated: fasthttp quotes request bytes in its parse and buffer errors, so an oversized or malformed request that merely contains the word is answered 408 instead of the mapped 431/4xx")
+		}
+	})
+
 	r.rule("R6", "offset accesses are not evaluated ahead of the guard that bounds them (contradiction rule over every function of the module)", func() { offsetGuardRule(r) })
 
 	if r.Tier == "thorough" {
